@@ -69,8 +69,11 @@ def run(cx, chk):
                     if j is None:
                         continue
                     key, okrule, detail = j
-                    s = sites.setdefault(key, {"n": 0, "rules": set(), "bad": [], "ln": e.get("ln"), "fn": e.get("fn"), "roots": set()})
+                    s = sites.setdefault(key, {"n": 0, "rules": set(), "bad": [], "ln": e.get("ln"), "fn": e.get("fn"), "roots": set(), "what": set()})
                     s["n"] += 1
+                    if e["ev"] == "unwrap":
+                        # what is unwrapped (callee / field), ids stripped: a position-independent way to name the site
+                        s["what"].add(re.sub(r"[#@]\d+", "", shape_unwrap(e["val"])))
                     s["roots"].add(f["q"])
                     if okrule:
                         s["rules"].add(okrule)
@@ -88,9 +91,12 @@ def run(cx, chk):
                        {"site": list(key), "rules": sorted(s["rules"]), "visits": s["n"]})
                 continue
             rk = "|".join(key)
-            if rk in residual:
-                used_res.add(rk)
-                chk.ob("C05.R1", "%s:%s" % (cfg, rk), "DX residual: " + residual[rk])
+            # residual entries name a site as function|kind|~<what is unwrapped> (position-independent) or function|kind|#ordinal
+            alts = [rk] + ["%s|%s|~%s" % (key[0], key[1], w) for w in sorted(s["what"])]
+            hit = [a for a in alts if a in residual]
+            if hit:
+                used_res.add(hit[0])
+                chk.ob("C05.R1", "%s:%s" % (cfg, hit[0]), "DX residual: " + residual[hit[0]])
                 continue
             detail, root = s["bad"][0]
             chk.violation("C05.R1", rk, "undischarged panic site in %s: %s (reachable from %s)" % (g["q"], detail, root),
